@@ -252,6 +252,94 @@ def _check_shares(what, weights, got, floor, msg, slack=0):
 
 
 # ---------------------------------------------------------------------------------------------
+# spellings: the documented / still supported ways to say "this child is given n / packed / weighted w"
+
+# case key "spell" (Columns and Pile): None / absent = every child "ctor", a string = every child that
+# spelling, a list = one spelling per child.  All of them describe the same container, so the same oracle
+# applies whichever is used:
+#   ctor          constructor tuples as in the constructor docstring: (n, w)  ('pack', w)  ('weight', a, w)
+#   ctor-str      constructor tuples with the kind as a plain string (type hints): ('given', n, w) ...
+#   ctor-enum     constructor tuples with the WHSettings member: (WHSettings.GIVEN, n, w) ...
+#   ctor-legacy   the backwards-compatible constructor forms: ('fixed', n, w)  ('flow', w), and a bare
+#                 widget for weight 1 ("Widgets not in a tuple are the same as ('weight', 1, widget)")
+#   contents-str  inserted into .contents with a plain options tuple as the contents docstring writes
+#                 it: (w, ('given', n))   [Columns: (w, ('given', n, box_widget))]
+#   contents-enum the same with the WHSettings member
+#   options-str   inserted into .contents with container.options('given', n [, box_widget])
+#   options-enum  inserted into .contents with container.options(WHSettings.GIVEN, n [, box_widget])
+SPELLS = ("ctor", "ctor-str", "ctor-enum", "ctor-legacy", "contents-str", "contents-enum", "options-str", "options-enum")
+_WH = {"given": urwid.WHSettings.GIVEN, "pack": urwid.WHSettings.PACK, "weight": urwid.WHSettings.WEIGHT}
+
+
+def _spells_of(case, n):
+    sp = case.get("spell")
+    if sp is None:
+        return ["ctor"] * n
+    if isinstance(sp, str):
+        return [sp] * n
+    if len(sp) != n or any(x not in SPELLS for x in sp):
+        raise Discard()
+    return list(sp)
+
+
+def _ctor_entry(kind, amount, w, spell):
+    if spell == "ctor-legacy":
+        if kind == "pack":
+            return ("flow", w)
+        if kind == "given":
+            return ("fixed", amount, w)
+        return w if amount == 1 and not isinstance(amount, float) else ("weight", amount, w)
+    if spell == "ctor":
+        if kind == "given":
+            return (amount, w)
+        k = kind
+    else:
+        k = _WH[kind] if spell == "ctor-enum" else kind
+    return (k, w) if kind == "pack" else (k, amount, w)
+
+
+def _build_container(cls, kinds, widgets, spells, focus, boxflags=None, **kwargs):
+    """cls: urwid.Columns / urwid.Pile; kinds[i] = (kind, amount); boxflags: set of indices (Columns only).
+    Children spelled ctor* go through the constructor (box flags through box_columns), the others are
+    inserted into .contents afterwards at their index (box flag as the third options element); the focus
+    is then set through focus_position."""
+    n = len(kinds)
+    is_cols = cls is urwid.Columns
+    ctor_idx = [i for i in range(n) if spells[i].startswith("ctor")]
+    entries = [_ctor_entry(kinds[i][0], kinds[i][1], widgets[i], spells[i]) for i in ctor_idx]
+    if len(ctor_idx) == n:
+        if is_cols:
+            return cls(entries, focus_column=focus, box_columns=sorted(boxflags or ()), **kwargs)
+        return cls(entries, focus_item=focus)
+    if is_cols:
+        box_columns = [j for j, i in enumerate(ctor_idx) if i in (boxflags or ())]
+        cont = cls(entries, box_columns=box_columns, **kwargs)
+    else:
+        cont = cls(entries)
+    for i in range(n):
+        sp = spells[i]
+        if sp.startswith("ctor"):
+            continue
+        kind, amount = kinds[i]
+        k = _WH[kind] if sp.endswith("-enum") else kind
+        a = None if kind == "pack" else amount
+        extra = (i in (boxflags or ()),) if is_cols else ()
+        opts = cont.options(k, a, *extra) if sp.startswith("options") else (k, a, *extra)
+        cont.contents.insert(i, (widgets[i], opts))
+    cont.focus_position = focus
+    return cont
+
+
+def _spell_classes(prefix, case):
+    sp = case.get("spell")
+    if sp is None:
+        return []
+    if isinstance(sp, str):
+        return [f"{prefix}:spelling={sp}"]
+    return [f"{prefix}:spelling=mixed"] + [f"{prefix}:spelling={x}" for x in sorted(set(sp))]
+
+
+# ---------------------------------------------------------------------------------------------
 # Columns
 
 # case: {"children": [[kind, amount], ...], "d": dividechars, "mw": min_width, "focus": i,
@@ -262,12 +350,12 @@ def _columns_loose(children):
     return any(k in ("given", "weight") and a == 0 for k, a in children)
 
 
-def _columns_oracle(children, wint, zero_packed, loose, d, mw, focus, maxcol, widths):
+def _columns_oracle(children, wint, zero_packed, loose, d, mw, focus, maxcol, widths, note=""):
     """wint: {index: integer weight} for the weighted children; zero_packed: number of pack children of width 0"""
     n = len(children)
 
     def msg():
-        return f"children={children} dividechars={d} min_width={mw} focus={focus} maxcol={maxcol}: widths {widths}"
+        return f"children={children}{note} dividechars={d} min_width={mw} focus={focus} maxcol={maxcol}: widths {widths}"
 
     if len(widths) > n:
         raise Violation("columns-length", msg())
@@ -332,23 +420,22 @@ def check_columns(case):
     render = bool(case.get("render"))
     maxrow = case.get("maxrow", 3)
     n = len(children)
+    spells = _spells_of(case, n)
+    note = f" spelled {case['spell']}" if case.get("spell") else ""
     log = []
-    probes, wl = [], []
+    probes = []
     for i, (k, a) in enumerate(children):
         glyph = chr(ord("a") + i)
         if k == "pack":
             if mode == "box" or i in boxflags:
                 raise Discard()  # PACK BOX is documented as unsupported
             p = Probe(i, log, [FIXED], glyph, fixed=(a, 1 + i % 2))
-            wl.append(("pack", p))
+        elif mode == "box" or i in boxflags:
+            p = Probe(i, log, [BOX], glyph)
         else:
-            if mode == "box" or i in boxflags:
-                p = Probe(i, log, [BOX], glyph)
-            else:
-                p = Probe(i, log, [FLOW], glyph, nrows=1 + i % 3)
-            wl.append((a, p) if k == "given" else ("weight", a, p))
+            p = Probe(i, log, [FLOW], glyph, nrows=1 + i % 3)
         probes.append(p)
-    cols = urwid.Columns(wl, dividechars=d, focus_column=focus, min_width=mw, box_columns=sorted(boxflags))
+    cols = _build_container(urwid.Columns, children, probes, spells, focus, boxflags, dividechars=d, min_width=mw)
     if cols.focus_position != focus:
         raise Violation("columns-focus-position", f"focus_column={focus} gave focus_position {cols.focus_position}")
     sizing = cols.sizing()
@@ -360,23 +447,23 @@ def check_columns(case):
     for maxcol in range(lo, hi + 1):
         size = (maxcol,) if mode == "flow" else (maxcol, maxrow)
         widths = list(cols.column_widths(size, False))
-        _columns_oracle(children, wint, zero_packed, loose, d, mw, focus, maxcol, widths)
+        _columns_oracle(children, wint, zero_packed, loose, d, mw, focus, maxcol, widths, note)
         if n > 1:
             # the same long-lived widget after a focus change at the same width (and back): the partition is a
             # function of the options, the focus and the size, not of what was laid out before
             f2 = (focus + 1) % n
             cols.focus_position = f2
-            _columns_oracle(children, wint, zero_packed, loose, d, mw, f2, maxcol, list(cols.column_widths(size, False)))
+            _columns_oracle(children, wint, zero_packed, loose, d, mw, f2, maxcol, list(cols.column_widths(size, False)), note)
             cols.focus_position = focus
             again = list(cols.column_widths(size, False))
             if again != widths:
                 raise Violation("columns-widths-depend-on-history",
-                                f"children={children} dividechars={d} min_width={mw} maxcol={maxcol}: widths {widths} with focus "
+                                f"children={children}{note} dividechars={d} min_width={mw} maxcol={maxcol}: widths {widths} with focus "
                                 f"{focus}, {again} after moving the focus to {f2} and back")
         if not render:
             continue
         _stat("cfg:columns-render")
-        msg = f"children={children} dividechars={d} min_width={mw} focus={focus} box={sorted(boxflags)} size={size}"
+        msg = f"children={children}{note} dividechars={d} min_width={mw} focus={focus} box={sorted(boxflags)} size={size}"
         w2, heights, args = cols.get_column_sizes(size, False)
         if list(w2) != widths:
             raise Violation("columns-sizes-agree", f"{msg}: column_widths {widths}, get_column_sizes {list(w2)}")
@@ -462,7 +549,7 @@ def _columns_classes(case):
         out.append("columns:fractional-weight")
     if _columns_loose(case["children"]):
         out.append("columns:zero-amounts(no-negative-clause-only)")
-    return out
+    return out + _spell_classes("columns", case)
 
 
 # ---------------------------------------------------------------------------------------------
@@ -484,17 +571,16 @@ def check_pile(case):
     n = len(items)
     if not any(k == "weight" and a > 0 for k, a in items):
         raise Discard()  # documented: a box Pile needs at least one weighted item
+    spells = _spells_of(case, n)
+    note = f" spelled {case['spell']}" if case.get("spell") else ""
     log = []
-    wl = []
+    probes = []
     for i, (k, a) in enumerate(items):
         glyph = chr(ord("a") + i)
-        if k == "pack":
-            wl.append(("pack", Probe(i, log, [FLOW], glyph, nrows=a)))
-        elif k == "given":
-            wl.append((a, Probe(i, log, [BOX], glyph)))
-        else:
-            wl.append(("weight", a, Probe(i, log, [BOX], glyph)))
-    pile = urwid.Pile(wl, focus_item=focus)
+        probes.append(Probe(i, log, [FLOW], glyph, nrows=a) if k == "pack" else Probe(i, log, [BOX], glyph))
+    pile = _build_container(urwid.Pile, items, probes, spells, focus)
+    if pile.focus_position != focus:
+        raise Violation("pile-focus-position", f"focus {focus} gave focus_position {pile.focus_position}")
     if BOX not in pile.sizing():
         raise Discard()
     loose = _pile_loose(items)
@@ -507,7 +593,7 @@ def check_pile(case):
         rows = pile.get_item_rows(size, False)
 
         def lazy(rows=rows, size=size):
-            return f"items={items} focus={focus} size={size}: rows {rows}"
+            return f"items={items}{note} focus={focus} size={size}: rows {rows}"
 
         if len(rows) != n:
             raise Violation("pile-length", lazy())
@@ -582,7 +668,7 @@ def _pile_classes(case):
     out = [f"pile:n={len(case['items'])}", "pile:kinds=" + "+".join(kinds)]
     if _pile_loose(case["items"]):
         out.append("pile:zero-amounts(no-negative-clause-only)")
-    return out
+    return out + _spell_classes("pile", case)
 
 
 # ---------------------------------------------------------------------------------------------
@@ -1114,6 +1200,26 @@ def pile_cases(option_sets, maxrow=(1, 24), render=False, zero=False):
                 yield case
 
 
+def spelled(cases, key):
+    """every case of the stream under every other spelling: each of the seven non-default spellings for all
+    children, and (two children or more) two mixed assignments - child i spelled SPELLS[(i + r) % 8] for r = 0
+    and r = 4, so that neighbouring children are spelled differently and every spelling meets every position"""
+    for case in cases:
+        n = len(case[key])
+        variants = list(SPELLS[1:])
+        if n > 1:
+            variants += [[SPELLS[(i + r) % len(SPELLS)] for i in range(n)] for r in (0, 4)]
+        for sp in variants:
+            c = dict(case)
+            c["spell"] = sp
+            yield c
+
+
+def columns_spelled_cases(max_n, maxcol=(1, 14)):
+    """the render grid of columns_render_cases at dividechars 1, min_width 2, under every spelling"""
+    return spelled((c for c in columns_render_cases(max_n, maxcol) if c["d"] == 1 and c["mw"] == 2), "children")
+
+
 ALIGNS_H = [["left", 0], ["center", 0], ["right", 0]] + [["relative", p] for p in range(0, 101, 5)]
 ALIGNS_V = [["top", 0], ["middle", 0], ["bottom", 0]] + [["relative", p] for p in range(0, 101, 5)]
 SIZE_KINDS = ([(["given", g], None) for g in range(1, 13)]
@@ -1207,6 +1313,17 @@ def grid_cases(max_n, maxcol=(1, 30)):
 _weight = st.one_of(st.integers(1, 12), st.sampled_from([0.5, 1.5, 2.5, 0.25, 7.5]))
 
 
+@st.composite
+def _spell_st(draw, n):
+    """None (constructor tuples) / one spelling for every child / one spelling per child"""
+    how = draw(st.integers(0, 3))
+    if how == 0:
+        return None
+    if how == 1:
+        return draw(st.sampled_from(SPELLS))
+    return draw(st.lists(st.sampled_from(SPELLS), min_size=n, max_size=n))
+
+
 def _child_option(allow_pack):
     opts = [st.tuples(st.just("given"), st.integers(1, 40)), st.tuples(st.just("weight"), _weight)]
     if allow_pack:
@@ -1226,7 +1343,7 @@ def _columns_case(draw):
     maxcol = draw(st.one_of(st.integers(1, 40), st.integers(1, 200)))
     return {"children": children, "d": draw(st.integers(0, 4)), "mw": draw(st.integers(1, 6)),
             "focus": draw(st.integers(0, n - 1)), "maxcol": [maxcol, maxcol], "mode": mode, "box": box,
-            "maxrow": draw(st.integers(1, 5)), "render": True}
+            "maxrow": draw(st.integers(1, 5)), "render": True, "spell": draw(_spell_st(n))}
 
 
 @st.composite
@@ -1236,7 +1353,7 @@ def _pile_case(draw):
     items = draw(st.lists(opt, min_size=1, max_size=8).filter(lambda it: any(k == "weight" for k, _a in it)))
     maxrow = draw(st.one_of(st.integers(1, 40), st.integers(1, 200)))
     return {"items": items, "focus": draw(st.integers(0, len(items) - 1)), "maxcol": draw(st.integers(1, 10)),
-            "maxrow": [maxrow, maxrow], "render": True}
+            "maxrow": [maxrow, maxrow], "render": True, "spell": draw(_spell_st(len(items)))}
 
 
 def _align_st(names):
@@ -1349,6 +1466,12 @@ def shard(ctx):
           "Columns get_column_sizes + render with probes (flow, box_columns, box-sized), small option set")
     sweep("pile", pile_cases({n: PILE_SMALL for n in range(1, ctx.scale(3, 4) + 1)}, maxrow=(1, 14), render=True),
           _pile_nontrivial, _pile_classes, "Pile get_rows_sizes + render with probes, small option set")
+    sweep("pile", spelled(pile_cases({n: PILE_REDUCED for n in range(1, ctx.scale(3, 4) + 1)}, maxrow=(1, 14), render=True), "items"),
+          _pile_nontrivial, _pile_classes,
+          "Pile get_item_rows + get_rows_sizes + render, reduced option set, every spelling of the options + 2 mixed")
+    sweep("columns", columns_spelled_cases(ctx.scale(3, 4)), _columns_nontrivial, _columns_classes,
+          "Columns column_widths + get_column_sizes + render, small option set, dividechars 1, min_width 2, every "
+          "spelling of the options + 2 mixed")
     sweep("grid", grid_cases(ctx.scale(5, 7)), _grid_nontrivial, _grid_classes, "GridFlow cells<=7, cell width 1..6, maxcol 1..30")
 
     given("columns", _columns_case(), 300, 8000, _columns_nontrivial, _columns_classes)
